@@ -3,11 +3,12 @@
    compute_parameter_cov_factor are regenerated from mellon/conditional.py and mellon/inference.py on every run.
    L is the factor stored by the constructor: chol_of L (K_bb + N) with N the assembled noise (psd).
    The joint Gram matrix of conditioning points and query points is assumed positive semi-definite (kernel_psd).
-   NOT proved here (searcher only): monotonicity of the variance under added inducing points
-   (var_monotone_in_inducing_points_partial: only the Schur bound for each set is proved); the
-   base-class wrappers (uncertainty = covariance + mean_covariance, ValueError guards) are checked by the harness. *)
+   Monotonicity of the variance under added inducing points is C06_var_monotone_in_inducing_points (thm/MonoThm.v).
+   The Cholesky contract is satisfiable: lib/MxChol.v constructs the factor of every spd matrix (C06_chol_contract_satisfiable).
+   NOT proved here: the base-class wrappers (uncertainty = covariance + mean_covariance, ValueError guards) are
+   checked by the harness. *)
 From mathcomp Require Import all_ssreflect all_fingroup all_algebra.
-From MellonV Require Import MatOps MxInst MxPsd MatGen CondThm AffineThm FactorThm CovThm CrossThm.
+From MellonV Require Import MatOps MxInst MxPsd MxChol MatGen CondThm AffineThm FactorThm CovThm CrossThm MonoThm.
 Set Implicit Arguments.
 Unset Strict Implicit.
 Import Order.TTheory GRing.Theory Num.Theory.
@@ -114,7 +115,23 @@ move=> lL; have [h1 h2] := W_latent cholF eigS eigV qrQ qrR z mu n_obs sv s j lL
 by split=> //; apply: param_cov_factor.
 Qed.
 
+(* adding inducing points (b1 -> b1 + b2, regularised Gram matrices A1 and [[A1, B], [B^T, D]]) never increases
+   the predictive covariance in the Loewner order, in particular no variance *)
+Theorem C06_var_monotone_in_inducing_points q b1 b2 (Kss : 'M[F]_q)
+      (A1 : 'M[F]_b1) (B : 'M[F]_(b1, b2)) (D : 'M[F]_b2)
+      (K1s : 'M[F]_(b1, q)) (K2s : 'M[F]_(b2, q)) (L1 : 'M[F]_b1) (L : 'M[F]_(b1 + b2)) :
+  spd A1 -> spd (block_mx A1 B B^T D) ->
+  chol_of L1 A1 -> chol_of L (block_mx A1 B B^T D) ->
+  loe (LandmarksCond_covariance_dF Kss (col_mx K1s K2s) L) (LandmarksCond_covariance_dF Kss K1s L1)
+  /\ forall i, (LandmarksCond_covariance_dF Kss (col_mx K1s K2s) L) i i
+               <= (LandmarksCond_covariance_dF Kss K1s L1) i i.
+Proof. exact: var_monotone_in_inducing_points. Qed.
+
 End C06.
+
+(* non-vacuity of the library contract every theorem above assumes *)
+Theorem C06_chol_contract_satisfiable (F : rcfType) : chol_contract (@cholm F).
+Proof. exact: chol_contract_cholm. Qed.
 
 Print Assumptions C06_cov_sym_psd.
 Print Assumptions C06_cov_diag_agrees.
@@ -125,3 +142,5 @@ Print Assumptions C06_families_share_covariance.
 Print Assumptions C06_mean_cov_gram.
 Print Assumptions C06_W_is_propagator.
 Print Assumptions C06_W_latent.
+Print Assumptions C06_var_monotone_in_inducing_points.
+Print Assumptions C06_chol_contract_satisfiable.
